@@ -190,7 +190,8 @@ def initTree (toks : List String) : Option Node :=
       let n ← n.toNat?
       let (cs, rest') ← parseChecks n rest
       let ts ← parseTrees rest'
-      pure (Idioms.renumber (Idioms.eitherOr cs ts ns))
+      -- `-` stands for the empty namespace (the root namespace: the flags are /1 … /n)
+      pure (Idioms.renumber (Idioms.eitherOr cs ts (if ns = "-" then "" else ns)))
   | _ => none
 
 def init (headerLine : String) : Option St :=
